@@ -4,6 +4,7 @@ mod rng;
 mod sx;
 mod c31;
 mod par;
+mod scanlist;
 mod c32;
 mod alpha;
 mod c01;
@@ -64,6 +65,7 @@ fn main() {
     match a.cmd.as_str() {
         "c31" => c31::run(&a),
         "par" => par::run(&a),
+        "scanlist" => scanlist::run(&a),
         "c32" => c32::run(&a),
         "c06" => c06::run_ff(&a),
         "c05" => c06::run_dec(&a),
